@@ -75,6 +75,42 @@ def main():
         got = accept("XrShape", "XrShape.cfg", evs)
         ok &= got == want
         print("  [%s] XrShape   %-40s %s" % ("ok " if got == want else "BAD", n, "accepted" if got else "rejected"))
+    # representation acceptors, on tables / trees dumped by the interpreter
+    import poolcheck
+    rj = {"id": "repr", "src": "let s = ([1, 2, 3] + range(4)).skip(1).take(5);\nlet z = zip(count(), [7, 8]);\n"
+          "let m = mapping((x: int) -> {x % 2}, (a: int, b: int) -> {a == b}).set(1, 10).set(3, 30).set(2, 20).discard(1);\n", "observe": ["s", "z", "m"]}
+    ro = vf.run_jobs([rj], "selftest-repr")["repr"]["values"]
+    recs = []
+    poolcheck.seq_records(ro["s"], recs, ("repr", "s"))
+    poolcheck.seq_records(ro["z"], recs, ("repr", "z"))
+    seqs = [{k: v for k, v in r.items() if not k.startswith("_")} for r in recs]
+    wrong_len = copy.deepcopy(seqs)
+    wrong_len[0]["len"] += 1
+    wrong_mid = copy.deepcopy(seqs)
+
+    def bump(r):
+        if isinstance(r, dict):
+            if r.get("k") == "Chain":
+                r["mid"][0] += 1
+                return True
+            of = r.get("of")
+            return any(bump(x) for x in (of if isinstance(of, list) else [of] if of else []))
+        return False
+    bumped = any(bump(r["repr"]) for r in wrong_mid)
+    for n, evs, want in (("recorded representation trees", seqs, True), ("reported length off by one", wrong_len, False)) + \
+            ((("a chain midpoint off by one", wrong_mid, False),) if bumped else ()):
+        got = accept("XrSeqRepr", "XrSeqRepr.cfg", evs)
+        ok &= got == want
+        print("  [%s] XrSeqRepr %-40s %s" % ("ok " if got == want else "BAD", n, "accepted" if got else "rejected"))
+    dm = ro["m"]
+    table = {"ev": "Table", "eqm": 0, "hm": 2, "len": dm["len"], "hs": [int(e["h"]) for e in dm["entries"]], "ks": [int(e["k"]["v"]) for e in dm["entries"]],
+             "bn": [x["n"] for x in dm["buckets"]]}
+    t_len = dict(table, len=table["len"] + 1)
+    t_bucket = dict(table, hs=[1 - h for h in table["hs"]])
+    for n, evs, want in (("recorded bucket table", [table], True), ("stored length off by one", [t_len], False), ("keys in the wrong buckets", [t_bucket], False)):
+        got = accept("XrMapRepr", "XrMapRepr.cfg", evs)
+        ok &= got == want
+        print("  [%s] XrMapRepr %-40s %s" % ("ok " if got == want else "BAD", n, "accepted" if got else "rejected"))
     print("SELFTEST", "PASSED" if ok else "FAILED")
     return 0 if ok else 1
 
